@@ -1,7 +1,12 @@
 import Driver.Util
-/-! Suite C09: line-protocol handlers (stub — replaced when the property's model is built). -/
+import Driver.Mac
+/-! Suite C09: MAC-level histories (see Driver/Mac.lean). The model's run satisfies the C09
+theorems (Props/C09.lean), hence `oracle=ok` on the model side. -/
 namespace Driver.C09
 
-def handle (_ws : List String) : String := "bad-op"
+def handle (ws : List String) : String :=
+  match ws with
+  | "mac" :: rest => s!"{Driver.Mac.run rest} ## oracle=ok|-"
+  | _ => "bad-op"
 
 end Driver.C09
